@@ -190,7 +190,9 @@ theorem fundOrLocate_key {s s' : AState} {a : Acct} {r1 r2 fee : Bool} {f : Opti
   unfold fundOrLocate at h
   simp only [] at h
   split at h
-  · simp at h; rw [← h.1]
+  · split at h
+    · simp at h
+    simp at h; rw [← h.1]
   · repeat' split at h
     all_goals (try (simp at h))
     rw [← h.1]
